@@ -79,6 +79,53 @@ PROPS["C06"] = dict(
 )
 
 
+UDP_TRUST = ["overlay shims (build tag verif): harness/shims/frontend/udp (non-serving Frontend + door to handleRequest), harness/shims/pkg/timecache (pinned clock)",
+             "HMAC-SHA256 is uninterpreted in the model; the harness computes the real tag for the messages the model can ask about",
+             "modelled not verified: encoding/binary, sync.Pool buffer reuse, the UDP socket (responses are captured over loopback, delimited by a sentinel datagram)"]
+
+PROPS["C07"] = dict(
+    lean_targets=["Chihaya.Props.C07"],
+    props_files=["Chihaya/Props/C07.lean"],
+    streams=[dict(name="C07", quick=25000, thorough=800000)],
+    rule="cases: real udp handleRequest (spy logic, pinned clock, valid connection IDs) on packets built by a BEP 15/41 client builder (both announce actions, all "
+         "event codes, option segmentations with NOPs/EndOfOptions), every length around each threshold for every action, every option type byte, URLData "
+         "length bytes against the packet end, bit flips / truncations of valid packets, scrapes with repeats and caps, garbage; compared: silence / "
+         "error class / response bytes / every request field handed to the logic; non-trivial = any packet reaching a decision other than 'silent' (model tag), distinct op lines",
+    trusted=UDP_TRUST, assumptions=[],
+)
+
+PROPS["C09"] = dict(
+    lean_targets=["Chihaya.Props.C09"],
+    props_files=["Chihaya/Props/C09.lean"],
+    streams=[dict(name="C09", quick=12000, thorough=400000)],
+    rule="cases: real udp handleRequest answering spy-logic responses: intervals incl. 0, sub-second, >2^32 s; counts up to 2^32-1; 0..100 peers of either family; "
+         "both announce actions x requester families; scrapes of 1..51 infohashes with repeats; client and internal logic errors (internal ones carry a unique "
+         "secret token that must not appear in the datagram); compared: datagram bytes / error class; non-trivial = every case (a response is produced), distinct op lines",
+    trusted=UDP_TRUST + ["BEP 15 client decoder in Props/C09.lean is the specification of 'layout'"], assumptions=[],
+)
+
+PROPS["C10"] = dict(
+    lean_targets=["Chihaya.Props.C10"],
+    props_files=["Chihaya/Props/C10.lean"],
+    streams=[dict(name="C10", quick=8000, thorough=300000)],
+    rule="cases: connection IDs issued by the real generator and presented from -11 s to +600 s of age with sub-second offsets under several skews, each of the "
+         "64 single-bit flips, IDs issued to another address (other family, v4-mapped), under another key, random IDs, damaged tags, every action code with "
+         "random bodies, and connects (the issued ID is compared with the model's); compared: error/response bytes and whether the logic was invoked; "
+         "non-trivial = every case, distinct op lines",
+    trusted=UDP_TRUST, assumptions=["clock before 2106 (uint32 seconds)"],
+)
+
+PROPS["C11"] = dict(
+    lean_targets=["Chihaya.Props.C11"],
+    props_files=["Chihaya/Props/C11.lean"],
+    streams=[dict(name="C11U", quick=2000, thorough=100000), dict(name="C11H", quick=4000, thorough=200000)],
+    rule="cases: product grid source address (v4, v6, v4-mapped, malformed) x client-supplied address (absent, zero, same family, other family, unparsable; "
+         "HTTP: ip/ipv4/ipv6 in every combination and order; UDP: the 4/16-byte packet field for actions 1/4) x allow_ip_spoofing x real-ip header, plus random "
+         "requests; compared: the address, family and ip-provided flag of the request handed to the logic; non-trivial = accepted requests (model tag), distinct op lines",
+    trusted=UDP_TRUST + PROPS["C06"]["trusted"], assumptions=[],
+)
+
+
 def run_gen(name, repo, lean, work, goenv):
     """regenerate lean/Chihaya/Gen/<Name>.lean from the current source"""
     tr = os.path.join(work, "tr")
@@ -133,7 +180,7 @@ def context_of(stream, ops, i):
     return list(reversed(ctx))
 
 
-STATELESS = {"benc", "vi", "cfg", "appr", "http"}
+STATELESS = {"benc", "vi", "cfg", "appr", "http", "udp"}
 
 
 def oracle(pid, stream, op, impl, model):
